@@ -20,14 +20,26 @@ class Matcher:
     def is_var(self, name: str) -> bool:
         return name not in self.globals
 
-    # -- terms
-    def eq(self, code, spec_src, boolean=False, binds=None) -> bool:
-        want = T.spec(spec_src, binds, boolean=boolean) if isinstance(spec_src, str) else spec_src
-        return T.alpha_eq(code, want, self.is_var)
+    def var_test(self, fn):
+        """names that may be renamed inside ``fn``: locals, not globals and not the parameters of fn (API names)"""
+        fixed = set()
+        if isinstance(fn, (ast.FunctionDef, ast.Lambda)):
+            a = fn.args
+            fixed = {x.arg for x in a.posonlyargs + a.args + a.kwonlyargs}
+            if a.vararg:
+                fixed.add(a.vararg.arg)
+            if a.kwarg:
+                fixed.add(a.kwarg.arg)
+        return lambda name: name not in self.globals and name not in fixed
 
-    def bind(self, code, spec_src, boolean=False, binds=None):
+    # -- terms
+    def eq(self, code, spec_src, boolean=False, binds=None, fn=None) -> bool:
         want = T.spec(spec_src, binds, boolean=boolean) if isinstance(spec_src, str) else spec_src
-        return T.alpha_match(code, want, self.is_var)
+        return T.alpha_eq(code, want, self.var_test(fn) if fn is not None else self.is_var)
+
+    def bind(self, code, spec_src, boolean=False, binds=None, fn=None):
+        want = T.spec(spec_src, binds, boolean=boolean) if isinstance(spec_src, str) else spec_src
+        return T.alpha_match(code, want, self.var_test(fn) if fn is not None else self.is_var)
 
     # -- statements
     def nodes(self, fn, nested=False):
@@ -39,7 +51,7 @@ class Matcher:
         for n in self.nodes(fn, nested):
             if isinstance(n, ast.Assign) and len(n.targets) == 1:
                 t = T.cond(n.value) if boolean else T.norm(n.value)
-                if self.eq(t, spec_src, boolean):
+                if self.eq(t, spec_src, boolean, fn=fn):
                     out.append(n)
         return out
 
@@ -49,7 +61,7 @@ class Matcher:
         out = []
         for n in self.nodes(fn, nested):
             if isinstance(n, ast.Assign) and len(n.targets) == 1:
-                if T.alpha_eq(('assign', T.norm(n.targets[0]), T.norm(n.value)), want, self.is_var):
+                if T.alpha_eq(('assign', T.norm(n.targets[0]), T.norm(n.value)), want, self.var_test(fn)):
                     out.append(n)
         return out
 
@@ -58,28 +70,28 @@ class Matcher:
         out = []
         for n in self.nodes(fn, nested):
             if isinstance(n, ast.AugAssign) and isinstance(n.op, op):
-                if T.alpha_eq(('aug', T.norm(n.target), T.norm(n.value)), want, self.is_var):
+                if T.alpha_eq(('aug', T.norm(n.target), T.norm(n.value)), want, self.var_test(fn)):
                     out.append(n)
         return out
 
     def ifs(self, fn, cond_spec, nested=False):
         out = []
         for n in self.nodes(fn, nested):
-            if isinstance(n, (ast.If, ast.While)) and self.eq(T.cond(n.test), cond_spec, True):
+            if isinstance(n, (ast.If, ast.While)) and self.eq(T.cond(n.test), cond_spec, True, fn=fn):
                 out.append(n)
         return out
 
     def fors(self, fn, iter_spec, nested=False):
         out = []
         for n in self.nodes(fn, nested):
-            if isinstance(n, ast.For) and self.eq(T.norm(n.iter), iter_spec):
+            if isinstance(n, ast.For) and self.eq(T.norm(n.iter), iter_spec, fn=fn):
                 out.append(n)
         return out
 
     def calls(self, fn, spec_src, nested=False):
         out = []
         for n in self.nodes(fn, nested):
-            if isinstance(n, ast.Call) and self.eq(T.norm(n), spec_src):
+            if isinstance(n, ast.Call) and self.eq(T.norm(n), spec_src, fn=fn):
                 out.append(n)
         return out
 
@@ -91,7 +103,7 @@ class Matcher:
                     t = T.cond(n) if boolean else T.norm(n)
                 except Exception:  # noqa
                     continue
-                if self.eq(t, spec_src, boolean):
+                if self.eq(t, spec_src, boolean, fn=fn):
                     out.append(n)
         return out
 
